@@ -86,7 +86,7 @@ func runC18(p *Prog, r *Report) {
 		checkStrconv(p, r, fn)
 		checkSplitUpperBound(p, r, fn)
 		checkScannerDiscipline(p, r, fn, "C18.R5")
-		checkPayload(p, r, fn)
+		checkPayload(p, r, fn, "C18.R6")
 		checkWindowPrefix(p, r, fn)
 	}
 	checkPortOrderRefused(p, r, set)
@@ -678,7 +678,7 @@ func checkScannerDiscipline(p *Prog, r *Report, fn *ssa.Function, rule string) {
 
 // ---- R6: payload ----
 
-func checkPayload(p *Prog, r *Report, fn *ssa.Function) {
+func checkPayload(p *Prog, r *Report, fn *ssa.Function, rule string) {
 	// the payload parser: func(string) ([]byte, error)
 	sig := fn.Signature
 	if sig.Params().Len() != 1 || sig.Results().Len() != 2 || types.TypeString(sig.Results().At(0).Type(), nil) != "[]byte" ||
@@ -689,7 +689,7 @@ func checkPayload(p *Prog, r *Report, fn *ssa.Function) {
 	pos := p.Pos(fn.Pos())
 	fp := Paths(fn)
 	if len(fp.Headers) > 0 {
-		r.Undecided("C18.R6", name, pos, "the payload parser is the strconv.Unquote idiom", "loop in the payload parser: byte-exact unescaping cannot be established structurally")
+		r.Undecided(rule, name, pos, "the payload parser is the strconv.Unquote idiom", "loop in the payload parser: byte-exact unescaping cannot be established structurally")
 		return
 	}
 	ok, why := true, ""
@@ -742,7 +742,7 @@ func checkPayload(p *Prog, r *Report, fn *ssa.Function) {
 			ok, why = false, "Unquote argument is not quote+payload+quote of the parameter"
 		}
 	}
-	r.Check(ok && nOK > 0, "C18.R6", name, pos, "the payload is []byte(strconv.Unquote(`\"`+payload+`\"`)) with the error propagated (byte-exact Go unescaping)", why)
+	r.Check(ok && nOK > 0, rule, name, pos, "the payload is []byte(strconv.Unquote(`\"`+payload+`\"`)) with the error propagated (byte-exact Go unescaping)", why)
 }
 
 // ---- R7: rate-window default prefix ----
